@@ -17,7 +17,7 @@ BIG = 16384  # 4 samples of the 4096-byte type
 LABELS = {
     "C08": {"panic", "err", "prefix", "final_out", "unsettled", "constructor"},
     "C09": {"window", "leak", "spin", "probe", "misdirected", "close_verdict", "verdict_side"},
-    "C12": {"tags_ref", "tagmap"},
+    "C12": {"tags_ref", "tagmap", "tag_value"},
     "C10": {"fn_out", "fn_tags", "panic", "err", "prefix", "final_out", "unsettled", "constructor"},
     "C19": {"synclaw", "eof", "fn_out", "fn_tags", "panic", "prefix", "final_out", "window", "leak", "spin", "probe", "misdirected", "close_verdict", "tags_ref", "tagmap", "unsettled", "constructor"},
 }
@@ -69,6 +69,14 @@ def block_table(thorough):
           B("CmaEqualizer", {"ntaps": 1}, "small", 40, ID),
           B("CmaEqualizer", {"ntaps": 3}, "small", 41, ID),
           B("DebugFilter<u8>", {}, "bytes", 30)]
+    # value-based tag placement for blocks that copy samples (ramp data: every value identifies its sample)
+    for blk, prm in (("Delay<u8>", {"delay": 3}), ("Skip<u8>", {"skip": 7}), ("Tee<u8>", {}), ("RationalResampler<u8>", {"interp": 3, "deci": 2}),
+                     ("RationalResampler<u8>", {"interp": 2, "deci": 3})):
+        t.append(B(blk, prm, "ramp", 200, extra={"tagvalue": True, "log_inputs": True}))
+    # a delay change at run time (set_delay before the at-th work() call): what comes out depends on
+    # when the change lands, so only the value-based tag rule and the verdict laws apply
+    for d, nd, at in ((3, 1, 2), (5, 0, 3), (2, 6, 2), (4, 2, 1), (6, 3, 4), (8, 2, 2), (7, 0, 2), (9, 4, 3), (5, 1, 2), (6, 0, 5)):
+        t.append(B("DelaySet<u8>", {"delay": d, "new_delay": nd, "at": at}, "ramp", 120, extra={"tagvalue": True, "log_inputs": True, "partial": True}))
     # hand-written work()
     t += [B("Delay<Big>", {"delay": 2}, "ramp", 9, {"kind": "delay", "arg": 2}, big=True, sched=True),
           B("Delay<Big>", {"delay": 0}, "ramp", 7, {"kind": "delay", "arg": 0}, big=True, sched=True),
@@ -179,9 +187,15 @@ def fn_table(thorough):
     E("VecToStream<u8>", {}, "bytes", 12, F("v2s"))
     E("StreamToPdu<u8>", {"max": 20, "tail": 2}, "bytes", 80, F("s2pdu", max=20, tail=2), extra={"force_tags": "burst"})
     E("StreamToPdu<u8>", {"max": 5, "tail": 0}, "bytes", 80, F("s2pdu", max=5, tail=0), extra={"force_tags": "burst"})
+    # bursts that fit but overflow while the tail is collected (burst <= max < burst + tail), and max below every burst
+    for mx, tail in ((4, 2), (6, 3), (1, 1), (3, 4), (2, 0)):
+        E("StreamToPdu<u8>", {"max": mx, "tail": tail}, "bytes", 90, F("s2pdu", max=mx, tail=tail), extra={"force_tags": "burst"})
     E("BurstTagger<u8>", {"threshold": 0.5}, "bytes", 60, F("burst", threshold=0), sync=True, kinds=["bytes", "small"])
     E("ToText<u8>", {}, "bytes", 30, F("totext"))
     E("ToText2<u8>", {}, "bytes", 25, F("totext"), kinds=["bytes", "bytes"])
+    # more text than one output stream holds: the output runs full mid-way
+    E("ToText<u8>", {}, "bytes", 1600, F("totext"))
+    E("ToText2<u8>", {}, "bytes", 900, F("totext"), kinds=["bytes", "bytes"])
     E("FftStream", {"size": 4}, "small", 43, F("fftframes", size=4))
     E("FftStream", {"size": 8}, "small", 1500, F("fftframes", size=8))
     E("FftStream", {"size": 7}, "small", 1300, F("fftframes", size=7))
